@@ -156,6 +156,7 @@ type gOp struct {
 	ListQ    url.Values
 	BadMd5   bool
 	Resum    *resumPlan
+	Between  *gOp // resumable upload: another request issued between initiation and completion
 }
 
 func (o gOp) String() string {
@@ -211,6 +212,7 @@ type gResp struct {
 	ErrJSON  bool
 	Trace    []string // resumable: the requests that were sent
 	Declared string
+	Between  *gResp
 }
 
 func (w *GCSWorld) composeReq(o gOp) *HResp {
@@ -252,7 +254,7 @@ func execG(w *GCSWorld, o gOp) gResp {
 		case "multipart":
 			h = w.UploadMultipart(o.Up)
 		default:
-			h, out.Trace = runResumable(w, o)
+			h, out.Trace, out.Between = runResumable(w, o)
 		}
 	case "Get":
 		h = w.GetMeta(o.Bucket, o.Name)
@@ -407,6 +409,12 @@ func (m *gModel) step(op gOp, r gResp) (string, string) {
 		}
 	case "Upload":
 		b, n := op.Up.Bucket, op.Up.Name
+		if op.Between != nil && r.Between != nil {
+			// the conditions of a resumable upload are evaluated at completion
+			if k, msg := m.step(*op.Between, *r.Between); k != "" {
+				return k, msg
+			}
+		}
 		cur := m.obj(b, n)
 		cv := evalConds(op.Up.Conds, cur)
 		if cv.junk {
@@ -567,7 +575,7 @@ func (m *gModel) step(op gOp, r gResp) (string, string) {
 		}
 		var data []byte
 		missing := ""
-		srcFail := false
+		srcFail, srcJunk := false, false
 		for i, s := range op.Srcs {
 			so := m.obj(op.Bucket, s)
 			if so == nil {
@@ -576,7 +584,11 @@ func (m *gModel) step(op gOp, r gResp) (string, string) {
 			}
 			if i < len(op.SrcGens) && op.SrcGens[i] != nil {
 				g, err := strconv.ParseInt(*op.SrcGens[i], 10, 64)
-				if err != nil || g != so.Gen {
+				if err != nil {
+					srcJunk = true
+					break
+				}
+				if g != so.Gen {
 					srcFail = true
 					break
 				}
@@ -590,6 +602,12 @@ func (m *gModel) step(op gOp, r gResp) (string, string) {
 					return "", ""
 				}
 				return fail("compose-missing-source", "source %q does not exist: want 404", missing)
+			}
+			return "", ""
+		}
+		if srcJunk {
+			if r.Status != 400 {
+				return fail("junk-condition", "an unparsable per-source generation must give 400")
 			}
 			return "", ""
 		}
@@ -680,6 +698,9 @@ func fullCompareG(w *GCSWorld, m *gModel) (string, string) {
 		for _, it := range lp.Items {
 			got = append(got, it.Name)
 		}
+		// the order of a listing is C11's business: compare as sets here
+		sort.SliceStable(lp.Items, func(i, j int) bool { return lp.Items[i].Name < lp.Items[j].Name })
+		sort.Strings(got)
 		if strings.Join(got, "\x00") != strings.Join(want, "\x00") {
 			return "state-mismatch", fmt.Sprintf("bucket %s lists %q, want %q", b, got, want)
 		}
